@@ -59,6 +59,10 @@ EXPLANATION += (
     ' Round 16: interrupt and exit handlers on worker paths re-raise (R-HANDLER/no-swallow).'
 )
 
+EXPLANATION += (
+    ' Round 17: a call that both writes the output and starts workers is judged inside the callee (R-MUST/publish-after-drain).'
+)
+
 RULE_TEXT = (
     "one obligation per (rule, construct): spawn site x collection, exit-"
     "code test, removal site, handler, (stage, output write, spawn point), "
